@@ -65,6 +65,29 @@ fn reported(probe: &str, name: &str) -> Result<Vec<String>, (String, String)> {
     })
 }
 
+/// Wrong ids made from pieces of the NAME: the id with every alphanumeric run of the name that has a digit in it (a year, a number, a
+/// numbered edition) appended / prepended - ids a lenient rule might let through.
+fn name_edits(id: &str, name: &str) -> Vec<String> {
+    let mut v = Vec::new();
+    let mut run = String::new();
+    for ch in name.chars().chain([' ']) {
+        if ch.is_ascii_alphanumeric() {
+            run.push(ch.to_ascii_lowercase());
+        } else if !run.is_empty() {
+            // (runs with a digit in them: years, numbers, numbered editions)
+            if run.chars().any(|c| c.is_ascii_digit()) {
+                v.push(format!("{id}{run}"));
+                v.push(format!("{run}{id}"));
+            }
+            run.clear();
+        }
+    }
+    v.sort();
+    v.dedup();
+    v.retain(|x| x != id);
+    v
+}
+
 fn edits(id: &str) -> Vec<String> {
     let mut v = Vec::new();
     let chars: Vec<char> = id.chars().collect();
@@ -138,7 +161,7 @@ impl Prop for C20 {
          punctuation, a number-word hyphenation, three words gluing digits and letters) x bracket suffix {none, year, edition, 'legacy 1.6', HD, II, 64, X} x mod suffix {none, \
          ' - FiveM', ' - Multi Theft Auto'}; for each name: the checker must not panic; the ids it reports as expected must \
          not depend on which wrong id is probed; each reported id must be accepted (empty result) and each single edit of it \
-         (drop first/last char, upper-case a letter, swap, append, prepend) must be rejected. lists: every sequence of up to 3 \
+         (drop first/last char, upper-case a letter, swap, append, prepend) and each id with a digit-bearing run of the name (a year, a number) appended or prepended must be rejected. lists: every sequence of up to 3 \
          (quick) / 4 (thorough) games from a 12-name pool built to collide (same acronym, same name different year, editions, \
          mod, number range), each with its self-reported id: no panic and the same verdict on a second run. The shipped GAMES \
          table passes. distinct_nontrivial = distinct names / lists evaluated"
@@ -196,7 +219,7 @@ impl Prop for C20 {
                                     }
                                     Err((msg, loc)) => ctx.violation(format!("checker-panics:{}", panic_kind(&msg)), &key, format!("name {name:?} id {e:?}"), format!("PANIC at {loc}: {msg}"), "a verdict", vec![]),
                                 }
-                                for c in edits(e) {
+                                for c in edits(e).into_iter().chain(name_edits(e, &name)) {
                                     if expected.contains(&c) {
                                         continue;
                                     }
